@@ -21,11 +21,13 @@ BOUNDS = {"shapes": "native/gen_dispatch.py: 1-3 methods, <=3 positional, <=2 ke
 
 
 def tasks(tier):
-    return _gen.entry_tasks(tier) + _tm.mtm_missing_tasks(("empty",)) + _tm.register_tasks()[:2] + _tm.e2e_tasks(["complete"], "quick")
+    from contracts import recode_c
+
+    return [dict(name="recode.tail", build=recode_c.t_recode_tail, mode="U")] + _gen.entry_tasks(tier) + _tm.mtm_missing_tasks(("empty",)) + _tm.register_tasks()[:2] + _tm.e2e_tasks(["complete"], "quick")
 
 
 def conformance(tier):
-    return [dict(name="native:c03", argv=["c03_calls.py"], violation_on_fail=True)]
+    return [dict(name="native:c03", argv=["c03_calls.py"], violation_on_fail=True), dict(name="native:c09", argv=["c09_rewrite.py", tier], violation_on_fail=True)]
 
 
 def concretise(obname, detail, task_result, native):
